@@ -46,7 +46,8 @@ class World:
     ]
     PROBES_EXPECTED = ["regime-few", "regime-many", "regime-boundary", "asymmetric-state", "basis-state", "adversarial-single-outcome",
                        "cross-regime-same-outcome", "exact-expectation", "measured-expectation", "cache-cleared", "user-seeded-runner",
-                       "peer-fault", "sampled-distribution", "exact-distribution", "operator-object-reused", "register-wider-than-8"]
+                       "peer-fault", "sampled-distribution", "exact-distribution", "operator-object-reused", "register-wider-than-8",
+                       "deficit-sampling-refused"]
 
     def gen_plan(self, seed, tier):
         r = random.Random(seed)
@@ -94,6 +95,13 @@ class World:
             if cfg["faults"] != "none" and r.random() < 0.15:
                 s["fault"] = {"kind": "peer", "at": r.randrange(0, 3)}
             steps.append(s)
+        if r.random() < 0.15:
+            nd = r.choice([1, 2, 2, 3])
+            steps.insert(r.randrange(len(steps) + 1), {
+                "op": "deficit", "args": {"n": nd, "d": r.uniform(2e-6, 8e-6), "state_seed": r.getrandbits(30),
+                                          "samples": r.choice([2 ** nd + 1, 20000, 150000, 300000]), "seed": r.choice([None, 7]),
+                                          "last_in_support": r.random() < 0.3},
+                "client": 0, "rs": r.getrandbits(32)})
         cfg["n"] = n_run
         return {"format": 1, "property": PID, "world": "runners", "seed": seed, "config": cfg, "steps": steps}
 
@@ -123,7 +131,48 @@ class World:
     def cleanup(self, st):
         st["rng"].restore()
 
+    def _do_deficit(self, ctx, st, step, a):
+        """A state the Wavefunction class accepts although its probabilities sum to 1 - d (d within the class's own
+        tolerance), sampled MANY times.  The sampler may refuse it (numpy's choice does); if it answers, every outcome
+        must still have non-zero exact probability - nothing may land where the amplitude is exactly zero."""
+        from orquestra.quantum.wavefunction import Wavefunction, sample_from_wavefunction
+
+        n = a["n"]
+        N = 2 ** n
+        rr = random.Random(a["state_seed"])
+        support = sorted(rr.sample(range(N - 1), rr.randint(1, max(1, N // 2)))) if N > 1 else [0]
+        if a.get("last_in_support"):
+            support = sorted(set(support + [N - 1]))
+        amps = np.zeros(N, dtype=complex)
+        for i in support:
+            amps[i] = complex(rr.gauss(0, 1), rr.gauss(0, 1))
+        amps *= np.sqrt(1.0 - a["d"]) / np.linalg.norm(amps)
+        ok, wf = call(Wavefunction, amps.copy())
+        if not ok:
+            ctx.log("deficit", "state-refused")
+            return
+        st["rng"].begin_step(step["rs"])
+        ok, res = call(sample_from_wavefunction, wf, a["samples"], a.get("seed"))
+        ctx.called("sample_from_wavefunction[deficit]")
+        if not ok:
+            ctx.probe("deficit-sampling-refused")
+            ctx.log("deficit", "refused", exc=type(res).__name__)
+            return
+        ctx.probe("deficit-sampling-answered")
+        with judge(ctx):
+            ctx.check(len(res) == a["samples"], "refine", "sample-count", f"{len(res)} samples for {a['samples']} requested")
+            seen = Counter(tuple(int(b) for b in t) for t in res)
+            for t, k in seen.items():
+                ctx.check(len(t) == n, "refine", "sample-length", f"outcome {t} for {n} qubits")
+                i = sum(b << (n - 1 - q) for q, b in enumerate(t))
+                ctx.check(abs(amps[i]) > 0, "refine", "zero-probability-outcome",
+                          lambda: f"outcome {t} was sampled {k} time(s) out of {a['samples']} although its amplitude is exactly 0 "
+                                  f"(state with total probability 1 - {a['d']:.2e}, support indices {support})")
+        ctx.log("deficit", "ok", n=n, samples=a["samples"])
+
     def step(self, ctx, st, step):
+        if step["op"] == "deficit":
+            return self._do_deficit(ctx, st, step, step["args"])
         a = step["args"]
         cfg = ctx.config
         si = a["sim"] % len(st["sims"])
@@ -144,6 +193,8 @@ class World:
             clear_library_caches()
             ctx.probe("cache-cleared")
         st["rng"].begin_step(step["rs"])
+        deleg0 = sum(v for k_, v in ctx.probes.items() if k_.startswith("rng-delegated-"))
+        adv0 = sum(v for k_, v in ctx.probes.items() if k_.startswith("rng-adversarial-"))
         # model
         ok, state = call(refmodel.run_circuit, circ.operations, n)
         if not ok:
@@ -230,7 +281,13 @@ class World:
         if asym:
             st["both_regimes_asym"] = True
             ctx.nontrivial = True
-        if cfg["rng_mode"] == "adversarial" and cfg["rng_policy"] in SINGLE:
+        deleg = sum(v for k_, v in ctx.probes.items() if k_.startswith("rng-delegated-")) - deleg0
+        adv = sum(v for k_, v in ctx.probes.items() if k_.startswith("rng-adversarial-")) - adv0
+        if cfg["rng_mode"] == "adversarial" and cfg["rng_policy"] in SINGLE and (deleg or adv < 2):
+            # the sampler drew (some of) its numbers through generator methods the adversary does not own: the
+            # "same single outcome in both regimes" consequence only follows when every draw was the adversary's
+            ctx.probe("cross-regime-check-skipped-other-sampler")
+        elif cfg["rng_mode"] == "adversarial" and cfg["rng_policy"] in SINGLE:
             ctx.probe("adversarial-single-outcome")
             s_set, b_set = set(outcomes["small"]), set(outcomes["big"])
             ctx.check(len(s_set) == 1 and s_set == b_set, "refine", "regimes-disagree",
@@ -261,6 +318,10 @@ class World:
 
     def shrink_step(self, s):
         a = s["args"]
+        if s["op"] == "deficit":
+            if a["n"] > 1:
+                yield {**s, "args": {**a, "n": a["n"] - 1}}
+            return
         ops = a["c"]["ops"]
         for i in range(len(ops)):
             yield {**s, "args": {**a, "c": {**a["c"], "ops": ops[:i] + ops[i + 1:]}}}
